@@ -657,7 +657,7 @@ func identical(a, b Value) bool {
 		return ok && len(x.alts) == 0 && len(y.alts) == 0 && x.obj == y.obj && fmt.Sprint(x.path) == fmt.Sprint(y.path)
 	case SliceV:
 		y, ok := b.(SliceV)
-		return ok && x == y
+		return ok && x.arr == y.arr && x.off == y.off && x.len == y.len && x.cap == y.cap && fmt.Sprint(x.base) == fmt.Sprint(y.base)
 	case StrV:
 		y, ok := b.(StrV)
 		return ok && x == y
